@@ -8,7 +8,7 @@ THEOREMS = ["lex_line_count", "dqRun_line", "sqRun_line", "commentRun_line", "li
             "pstep_err_reported", "pstep_eof_reported", "pstep_nat", "C06_layout_independent", "C14_log_monotone",
             "C06_rejection_reported", "C06_rejecting_step_reports", "C06_invariant_reachable", "C06_accepted_only_notices",
             "C06_accepted_silent", "C06_accepted_silent_any", "pstep_ndm", "C06_notice_needs_flag", "C06_resolver", "C06_include_reported", "C06_pop_source", "C06_include_restarts",
-            "C06_return_restores"]
+            "C06_return_restores", "C06_close_position"]
 PARTIAL = ("Proved: (a) every rejection is reported - a token stream that takes the machine to 'rejected' has delivered at least one more diagnostic "
            "or callback invocation than before the parse (C06_rejection_reported, from the per-step C06_rejecting_step_reports and the invariant "
            "'the current option exists and is of the kind that led to this state', which holds in every reachable state: C06_invariant_reachable); the "
@@ -159,6 +159,35 @@ def generate(rng, tier):
             cases.append(Case("e%d" % n, lines, {"kind": kind, "where": where, "nfiles": nfiles,
                                                   "deprecated": any(o.flags & gen.DEPRECATED for _p, o in gen.all_opts(opts))}))
             n += 1
+    # included files that are not brace-balanced: a section opened in one source and closed in another.  The offending
+    # token is placed after the place where the sources change; it must be reported under the file it is in (F38)
+    base = with_include(hand_schemas()[0])
+    errs = [b"nosuch = 1\n", b"i = x\n", b"}\n", b"i =", b"l = { 1, \n\n zz }\n", b'include("nosuch.conf")\n']
+    shapes = [
+        ("open", b'i = 1\ninclude("open_m.conf")\n}\ni = 2\n%E', [("open_m.conf", b"m t {\n x = 1\n")]),
+        ("open_err_in_file", b'i = 1\ninclude("open_m.conf")\n}\ni = 2\n', [("open_m.conf", b"m t {\n x = 1\n%E")]),
+        ("close", b'i = 1\nm t {\ninclude("close.conf")\ni = 2\n%E', [("close.conf", b" x = 2\n}\n\n")]),
+        ("close_err_in_file", b'i = 1\nm t {\ninclude("close.conf")\ni = 2\n', [("close.conf", b" x = 2\n}\n\n%E")]),
+        ("reopen", b'm t {\ninclude("reopen.conf")\n}\n%E', [("reopen.conf", b"x = 1 }\nm t {\n x = 2\n")]),
+        ("reopen_err_in_file", b'm t {\ninclude("reopen.conf")\n}\ni = 3\n', [("reopen.conf", b"x = 1 }\n%Em t {\n x = 2\n")]),
+        ("nested_open", b'sec {\ninclude("open_chain.conf")\n}\n}\n%E', [("open_chain.conf", b'x = 1\n}\nn {\ninclude("open_inner.conf")\n'),
+                                                                         ("open_inner.conf", b"inner q {\n z = 1\n")]),
+        ("single_close", b'sec {\ninclude("close.conf")\n%E', [("close.conf", b" x = 2\n}\n")]),
+    ]
+    for sname, text, files in shapes:
+        for e in errs:
+            for via in ("PB", "PF"):
+                cdir = "%s/u%d" % (root, n)
+                lines = schema_lines(base) + ["CWD " + hx(cdir), "X 0 0"]
+                for fn, body in files:
+                    lines.append("FILE %s reg %s" % (hx(fn), hx(body.replace(b"%E", e))))
+                t = text.replace(b"%E", e)
+                if via == "PB":
+                    lines.append("PB 0 " + hx(t))
+                else:
+                    lines += ["FILE %s reg %s" % (hx("main.conf"), hx(t)), "PF 0 " + hx("main.conf")]
+                cases.append(Case("u%d" % n, lines, {"kind": "unbalanced_" + sname, "where": "after", "nfiles": len(files), "deprecated": False}))
+                n += 1
     return cases
 
 
